@@ -46,6 +46,7 @@ def run(ctx):
     r56(ctx)
     r57(ctx, m)
     r59(ctx, m)
+    r510(ctx, m)
     from . import c08 as _c08
     _c08.r87(ctx, ctx.repo['util'], 'R5.8')
     from . import c04 as _c04
@@ -488,3 +489,16 @@ def r59(ctx, m, rule='R5.9'):
         for c in calls:
             ctx.ob(rule, 'api.%s:schema-element-looked-up-by-path-list' % q, bool(c.args) and norm(c.args[0]).endswith('path_in_schema'),
                    '`%s`' % norm(c), m.loc(c))
+
+
+def r510(ctx, m, rule='R5.10'):
+    """INT96 statistics have no defined order and reach filter_out_stats as raw 12-byte strings: no pruning on them"""
+    f = m.func('filter_out_stats')
+    cfg = CFG(f)
+    skips = [st for st in iter_child_stmts(f.body) if isinstance(st, ast.Continue)]
+    ok = False
+    for st in skips:
+        tests = [norm(e.test) for e, fld in cfg.enclosing_tests(st) if isinstance(e, ast.If)]
+        if any('Type.INT96' in t for t in tests):
+            ok = True
+    ctx.ob(rule, 'api.filter_out_stats:no-pruning-on-INT96-statistics', ok, '', m.loc(f))
